@@ -214,4 +214,5 @@ class Context(object):
                 fn()
         finally:
             # Remove self from the stack
-            assert self.stack.pop() is self
+            removed = self.stack.pop()
+            assert removed is self
